@@ -303,6 +303,62 @@ def shadow_probe() -> dict:
             "fn_cases": {f.name: values for f in fns}, "spec_cases": 0}
 
 
+def paren_probe() -> dict:
+    """Every parenthesisation context of the transpiler with simple / compound operands on either
+    side, on an exhaustive small set of instances (deterministic; the generated models add variety)."""
+    import itertools
+    N, C, M = mmg.Name, mmg.Const, mmg.Member
+    Cmp, And, Or, Not, Imp, Call = mmg.Cmp, mmg.And, mmg.Or, mmg.Not, mmg.Implies, mmg.Call
+    s = N("self")
+    flag, other, value, count, name, items = (M(s, n) for n in ("flag", "other", "value", "count", "name", "items"))
+    pos, cpos = Cmp(">", value, C(0)), Cmp(">", count, C(0))
+    allowed = N("Allowed_numbers")
+    item, i = N("item"), N("i")
+    bodies = [
+        Cmp("==", flag, pos), Cmp("==", pos, flag), Cmp("==", flag, mmg.IsNone(name)), Cmp("!=", flag, Not(other)),
+        Cmp("==", pos, cpos), Cmp("!=", flag, mmg.IsNotNone(name)), Cmp("==", flag, mmg.IsIn(value, allowed)),
+        Cmp("==", Or((flag, other)), flag), Cmp("==", flag, Or((flag, other))), Cmp("==", flag, And((other, pos))),
+        Cmp(">", mmg.Sub(value, mmg.Sub(count, C(1))), C(0)), Cmp(">=", mmg.Sub(value, mmg.Add(count, C(1))), C(0)),
+        Cmp("!=", mmg.Sub(mmg.Sub(value, count), C(1)), C(0)), Cmp("<", mmg.Add(value, mmg.Sub(count, C(2))), C(1)),
+        Cmp("<=", C(1), mmg.Sub(C(3), mmg.Sub(value, count))),
+        Not(Or((flag, other))), Not(Imp(flag, other)), Not(And((flag, other))), Not(pos), Not(Not(flag)),
+        Imp(And((flag, other)), pos), Imp(Or((flag, other)), pos), Imp(Imp(flag, other), pos),
+        Imp(flag, Imp(other, pos)), Imp(flag, Or((other, pos))), Imp(flag, And((other, pos))), Imp(pos, flag),
+        Imp(Not(flag), other), Imp(Cmp("==", flag, other), pos),
+        And((Or((flag, other)), pos)), Or((And((flag, other)), pos, Not(other))), Or((Not(flag), other, pos)),
+        And((Imp(flag, other), pos)), Or((Imp(flag, pos), other, cpos)), And((Not(flag), Not(other))),
+        Imp(mmg.IsNotNone(name), Cmp("==", flag, Cmp(">", Call("len", (name,)), C(1)))),
+        Or((mmg.IsNone(name), Cmp("!=", Call("len", (name,)), mmg.Sub(value, C(1))))),
+        mmg.IsIn(mmg.Add(value, C(1)), allowed), Not(mmg.IsIn(value, allowed)),
+        Imp(mmg.IsIn(value, allowed), flag), Or((mmg.IsIn(count, allowed), flag, other)),
+        mmg.All(mmg.ForEach("item", items), Imp(Cmp(">", item, C(0)), Cmp(">", item, count))),
+        mmg.AnyOf(mmg.ForEach("item", items), Not(Or((Cmp(">", item, C(0)), flag)))),
+        mmg.All(mmg.ForRange("i", C(1), Call("len", (items,))),
+                Cmp("<=", mmg.Index(items, mmg.Sub(i, C(1))), mmg.Index(items, i))),
+        mmg.AnyOf(mmg.ForRange("i", C(0), mmg.Sub(Call("len", (items,)), C(1))),
+                  Cmp("==", mmg.Index(items, i), mmg.Sub(value, mmg.Sub(count, C(1))))),
+        Cmp("==", flag, mmg.All(mmg.ForEach("item", items), Cmp(">", item, C(0)))),
+        Not(mmg.AnyOf(mmg.ForEach("item", items), Cmp("==", item, value))),
+    ]
+    doc = mmg.Doc("Provide a probe for the parentheses of the transpiler.")
+    t_int, t_bool = mmg.TPrim("int"), mmg.TPrim("bool")
+    cls = mmg.Class("Probe", properties=[
+        mmg.Property("flag", t_bool, mmg.Doc("Hold the flag.")), mmg.Property("other", t_bool, mmg.Doc("Hold the other flag.")),
+        mmg.Property("value", t_int, mmg.Doc("Hold the value.")), mmg.Property("count", t_int, mmg.Doc("Hold the count.")),
+        mmg.Property("name", mmg.TOpt(mmg.TPrim("str")), mmg.Doc("Hold the name.")),
+        mmg.Property("items", mmg.TList(t_int), mmg.Doc("Hold the items."))], doc=mmg.Doc("Represent a probe."))
+    for k, b in enumerate(bodies):
+        cls.invariants.append(mmg.Invariant(f"Probe-5.{k}: the values shall be consistent", b, form="c08:paren_probe"))
+    consts = [mmg.ConstantSet("Allowed_numbers", "int", [1, 2, 3], doc=mmg.Doc("Define the allowed numbers."))]
+    mm = mmg.MetaModel(doc, "dummy", "https://example.com/mm", classes=[cls], constants=consts, decl_order=["Probe"])
+    insts = []
+    for k, (f, o, v, c, n, it) in enumerate(itertools.product(
+            [True, False], [True, False], [-1, 0, 1, 2], [0, 1, 2], [None, "", "ab"], [[], [1], [0, 2], [2, 1]])):
+        insts.append({"cls": "Probe", "oid": k + 1,
+                      "fields": {"flag": f, "other": o, "value": v, "count": c, "name": n, "items": it}})
+    return {"mm": mmg.dumps(mm), "instances": insts, "pattern_cases": {}, "fn_cases": {}, "spec_cases": 0}
+
+
 def same_errors(impl, exp) -> bool:
     if "raise" in exp:
         return "raise" in impl and impl["raise"] in exp["raise"]
@@ -320,8 +376,9 @@ def streams(ctx: lib.Ctx) -> None:
     n_inst = ctx.n(50, 200)
 
     # ---------------------------------------------------------------- direct oracle
-    jobs = [filter_probe(), that_probe(), module_probe(), shadow_probe()]
-    metas = [("filter_probe", {}, {}), ("that_probe", {}, {}), ("module_probe", {}, {}), ("shadow_probe", {}, {})]
+    jobs = [filter_probe(), that_probe(), module_probe(), paren_probe(), shadow_probe()]
+    metas = [("filter_probe", {}, {}), ("that_probe", {}, {}), ("module_probe", {}, {}), ("paren_probe", {}, {}),
+             ("shadow_probe", {}, {})]
     n_probes = len(jobs)
     for k in range(n_models):
         base = "small" if (k % 3 or not ctx.thorough) else "medium"
@@ -375,6 +432,7 @@ def streams(ctx: lib.Ctx) -> None:
                     key = {"filter_probe": "comprehension-filter-dropped",
                            "that_probe": "loop-variable-captures-that",
                            "module_probe": "loop-variable-captures-module",
+                           "paren_probe": "parenthesisation-probe",
                            "shadow_probe": "argument-does-not-shadow-global"}.get(name) or (
                         f"verify-differs-{lib.stable_key(job['mm'], idx)}")
                     ctx.impl_failure(
@@ -469,7 +527,7 @@ def streams(ctx: lib.Ctx) -> None:
     lap('rules')
     # ---------------------------------------------------------------- transpiler (a)
     texts = [j.get("model_text") or mmg.render_source(mmg.loads(j["mm"]))
-             for j in jobs[n_probes - 1:n_probes + ctx.n(6, 40)]]   # the shadow probe and the generated models
+             for j in jobs[n_probes - 2:n_probes + ctx.n(6, 40)]]   # the paren and shadow probes, the generated models
     tres = lib.impl_call("pyverify_corr.py", {"mode": "transpile", "models": texts}, timeout=2400)
     inputs, cases, gs = [], [], []
     dist = collections.Counter()
